@@ -51,6 +51,10 @@ THEOREMS = [
     "XalanModel.Props.C15.key_lookup_total",
     "XalanModel.Props.C15.imports_merged",
     "XalanModel.Props.C15.key_spec_stylesheet",
+    "XalanModel.Props.C15.key_context_document",
+    "XalanModel.Props.C15.generated_overloads_use_context",
+    "XalanModel.Props.C15.key_context_document_spec",
+    "XalanModel.Props.C15.key_context_document_counterexample",
     "XalanModel.Props.C15.key_call_spec",
     "XalanModel.Props.C15.key_nodeset_union",
     "XalanModel.Props.C15.key_nodeset_union_partial",
@@ -301,6 +305,7 @@ def judge(case, res):
 
 DEVIATIONS = {
     "E": "nodeset-arg.empty-string-value-skipped",   # FunctionKey.cpp nRefs>1 guard (Generated.C15_FunctionKey.skipEmptyRefs)
+    "P": "use-position-last-is-zero",                 # KeyTable.cpp evaluates `use` with an empty context node list
 }
 
 
@@ -317,15 +322,15 @@ def sub_cases(case):
         if sid != 0 and sid not in used and not any(p == sid for (_, p, _) in c["sheets"]):
             yield dict(c, sheets=[s for s in c["sheets"] if s[0] != sid])
     last = len(c["docs"]) - 1
-    if last > 0 and not any(x["doc"] == last or x.get("argdoc") == last for x in c["calls"]):
+    if last > 0 and not any(x["doc"] == last or x.get("argdoc") == last or x.get("cur") == last for x in c["calls"]):
         yield dict(c, docs=c["docs"][:last], rtf=[k for k in c.get("rtf", []) if k != last])
     for k in c.get("rtf", []):
         yield dict(c, rtf=[j for j in c["rtf"] if j != k])
-    if c.get("strip"):
-        yield dict(c, strip=None)
+    if c.get("preserve"):
+        yield dict(c, preserve=None)
     for k, d in enumerate(c["docs"]):
         for nd in shrink_tree(d):
-            yield dict(c, docs=c["docs"][:k] + [nd] + c["docs"][k + 1:], calls=[dict(x, ctx=0) for x in c["calls"]])
+            yield dict(c, docs=c["docs"][:k] + [nd] + c["docs"][k + 1:], calls=[dict(x, ctx=0, **({"curctx": 0} if "curctx" in x else {})) for x in c["calls"]])
 
 
 def shrink_tree(t):
@@ -385,10 +390,10 @@ def keyclass(key):
 
 
 def describe(case):
-    return {"docs": [G.doc_xml(d, set(case["strip"]) if case.get("strip") else None) for d in case["docs"]],
+    return {"docs": [G.doc_xml(d, G.strip_pred(case)) for d in case["docs"]],
             "sheets": [list(s) for s in case["sheets"]],
             "decls": [list(d) for d in case["decls"]],
-            "calls": case["calls"], "rtf": case.get("rtf", []), "strip": case.get("strip"),
+            "calls": case["calls"], "rtf": case.get("rtf", []), "strip": case.get("strip"), "preserve": case.get("preserve"),
             "case": case}
 
 
@@ -400,7 +405,7 @@ def from_json(c):
             return ("E", n[1], [tuple(a) for a in n[2]], [tup(k) for k in n[3]], bool(n[4]) if len(n) > 4 else False)
         return tuple(n)
     return {"id": c.get("id", "replay"), "docs": [tup(d) for d in c["docs"]], "sheets": [tuple(s) for s in c["sheets"]],
-            "decls": [tuple(d) for d in c["decls"]], "calls": c["calls"], "rtf": c.get("rtf", []), "strip": c.get("strip"),
+            "decls": [tuple(d) for d in c["decls"]], "calls": c["calls"], "rtf": c.get("rtf", []), "strip": c.get("strip"), "preserve": c.get("preserve"),
             "expect_compile_error": c.get("expect_compile_error", False)}
 
 
@@ -480,6 +485,8 @@ def run(ctx):
     ]
     ctx.build("hooks")
     ctx.translate("c15_functionkey")
+    ctx.translate("c15_execcontext")
+    ctx.translate("c15_keytable")
     ctx.lean("XalanModel.Props.C15", THEOREMS, extra_targets=["xm_c15"])
     model = ctx.exe("xm_c15")
     harness = common.build_harness("c15_keys", ["c15_keys.cpp"], flavor="hooks", sanitize=False)
@@ -509,12 +516,18 @@ def run(ctx):
                  cls="docs=%d" % len(case["docs"]))
         if case.get("expect_compile_error"):
             ctx.hist["key() inside use/match (compile error expected)"] = ctx.hist.get("key() inside use/match (compile error expected)", 0) + 1
+        if case.get("preserve"):
+            ctx.hist["with xsl:preserve-space"] = ctx.hist.get("with xsl:preserve-space", 0) + 1
         if case.get("strip"):
             ctx.hist["with xsl:strip-space"] = ctx.hist.get("with xsl:strip-space", 0) + 1
         if case.get("rtf"):
             ctx.hist["with result-tree-fragment document"] = ctx.hist.get("with result-tree-fragment document", 0) + 1
         for c in case["calls"]:
             ctx.hist["call:" + c["kind"]] = ctx.hist.get("call:" + c["kind"], 0) + 1
+            if c.get("form"):
+                kk = "call in predicate, current node in %s document, %s name" % (
+                    "another" if c.get("cur") != c["doc"] else "the same", "prefixed" if c["name"].startswith("{") else "plain")
+                ctx.hist[kk] = ctx.hist.get(kk, 0) + 1
         ctx.hist["modules=%d" % len(case["sheets"])] = ctx.hist.get("modules=%d" % len(case["sheets"]), 0) + 1
         ctx.hist["decls=%d" % len(case["decls"])] = ctx.hist.get("decls=%d" % len(case["decls"]), 0) + 1
         if res[0].startswith("ERR"):
@@ -557,10 +570,11 @@ def run(ctx):
             ps = judge(case, res)
             ctx.hist["asan cases"] = ctx.hist.get("asan cases", 0) + 1
             for p in ps:
-                nbad += 1
                 if p[0] == "violation":
-                    ctx.fail(p[1] + " [asan build]", p[2], describe(case))
+                    if ctx.fail(p[1] + " [asan build]", p[2], describe(case)) != "known":
+                        nbad += 1
                 else:
+                    nbad += 1
                     agree = False
                     if len(corr_details) < 3:
                         corr_details.append({"problem": "[asan build] " + p[1] + " — " + p[2], "input": describe(case)})
@@ -586,6 +600,8 @@ def replay(ctx, path):
     case = from_json(inp["case"])
     ctx.build("hooks")
     ctx.translate("c15_functionkey")
+    ctx.translate("c15_execcontext")
+    ctx.translate("c15_keytable")
     common.lake_build(["xm_c15"])
     model = ctx.exe("xm_c15")
     harness = common.build_harness("c15_keys", ["c15_keys.cpp"], flavor="hooks", sanitize=False)
